@@ -3,8 +3,10 @@
   exactly `replica` pairwise different live names per partition, for every old layout whose lists are
   duplicate-free (any length). Invariant: every listed name has the pid in its replica list
   (`newNodesReplicaMap`) — the one-sided form of the prototype's `sync`, which also holds for old lists
-  longer than `replica`. The least-loaded picks are used only through "the pick is one of the
-  candidates", so nothing here depends on the comparators.
+  longer than `replica` (their extra members are counted by `addOld` but are neither reused nor
+  excluded: the fill loop works on `oldlist.take replica`, so an extra member that is picked as a
+  replacement has the pid twice in its replica list — `Has` does not care). The least-loaded picks are
+  used only through "the pick is one of the candidates", so nothing here depends on the comparators.
 -/
 import ZanVerif.Place.Model
 
@@ -356,7 +358,7 @@ theorem fillAll_spec (nm : List α) (hnm : nm.Nodup) (replica : Nat) (old : List
   | succ k ih =>
     intro pid items rows st inv hl hfut h
     simp only [fillAll] at h
-    cases hrow : fillRow pid (old.getD pid []) replica 0 items [] (old.getD pid []) with
+    cases hrow : fillRow pid ((old.getD pid []).take replica) replica 0 items [] ((old.getD pid []).take replica) with
     | refused => rw [hrow] at h; cases h
     | panicEmpty => rw [hrow] at h; cases h
     | panicIndex => rw [hrow] at h; cases h
@@ -364,11 +366,14 @@ theorem fillAll_spec (nm : List α) (hnm : nm.Nodup) (replica : Nat) (old : List
       obtain ⟨items', row⟩ := v
       rw [hrow] at h
       simp only at h
-      have rinv : RInv nm pid (old.getD pid []) 0 items [] (old.getD pid []) :=
+      -- the loop sees (reuses, excludes) only the first `replica` names of the old list
+      have rinv : RInv nm pid ((old.getD pid []).take replica) 0 items [] ((old.getD pid []).take replica) :=
         ⟨inv.names, nodup_nil, (fun _ hx => by cases hx), (fun _ hx => by cases hx), (fun _ hx => hx),
-          (fun _ hx => by cases hx), rfl, (fun _ hx => by cases hx), hfut pid (Nat.le_refl _)⟩
+          (fun _ hx => by cases hx), rfl, (fun _ hx => by cases hx),
+          (fun x hx hxn => hfut pid (Nat.le_refl _) x (mem_of_mem_take hx) hxn)⟩
       obtain ⟨r1, r2, r3, r4, r5⟩ :=
-        fillRow_spec nm hnm pid _ (getD_nodup hold pid) replica 0 items [] _ items' row rinv hrow
+        fillRow_spec nm hnm pid _ ((getD_nodup hold pid).sublist (take_sublist _ _)) replica 0 items [] _ items' row
+          rinv hrow
       have inv' : J nm replica ⟨items', rows ++ [row]⟩ := by
         refine ⟨r5.1.trans inv.names, ?_, ?_, ?_, ?_⟩
         · intro x hx; rcases mem_append.mp hx with hx | hx
